@@ -32,6 +32,9 @@ type caseSpec struct {
 	note   string
 	group  string // cases related by a property (C09, C10, C11): group id and role
 	role   string
+	// probe: a relation a property states between several executions on the SAME values in memory
+	// (which the case file cannot carry); each finding is {property, clause, detail}
+	probe func(p *path.Path, cs caseSpec) [][3]string
 }
 
 type emitter struct {
@@ -145,6 +148,13 @@ func (e *emitter) emit(cs caseSpec) {
 		regexTable(p.AST, cs.doc, cs.vars), qs(replayLine(cs)))
 	if cs.group != "" {
 		fmt.Fprintf(w, " (group %s %s)", qs(cs.group), qs(cs.role))
+	}
+	if cs.probe != nil {
+		fmt.Fprintf(w, " (hprops")
+		for _, f := range cs.probe(p, cs) {
+			fmt.Fprintf(w, " (%s %s %s)", qs(f[0]), qs(f[1]), qs(f[2]))
+		}
+		fmt.Fprintf(w, ")")
 	}
 	fmt.Fprintf(w, " (runs")
 
